@@ -346,7 +346,7 @@ class RateOpenStep(Harness):
         nd = r['socket_dict']
         new = [s_ for s_ in w.socks if s_ not in pre]
         return {'guard': True, 'A2': r['num_attempted_connections'], 'O2': r['num_opened_connections'], 'n2': len(nd), 'pre_kept': all(s_ in nd and nd[s_] is now for s_ in pre),
-                'created': len(new), 'tracked_new': [s_ in nd and nd[s_] is now for s_ in new], 'dialled': list(w.dialled), 'limits': (r['max_connections'], r['concurrent_sockets'])}
+                'created': len(new), 'tracked_new': [s_ in nd and nd[s_] is now for s_ in new], 'new_closed': [bool(s_.closed) for s_ in new], 'dialled': list(w.dialled), 'limits': (r['max_connections'], r['concurrent_sockets'])}
 
     def check(self, inp, obs):
         if 'exc' in obs:
@@ -363,6 +363,8 @@ class RateOpenStep(Harness):
         accepted = inp['pool'][self.n]['code'] != 3
         yield 'tracked-iff-accepted', s_and(s_implies(accepted, s_and(obs['n2'] == n + 1, obs['tracked_new'] == [True])), s_implies(s_not(accepted), s_and(obs['n2'] == n, obs['tracked_new'] == [False])))
         yield 'tracked<=3', obs['n2'] <= C_SHIP
+        # a socket whose connect is refused at once is not tracked, so nothing would ever close it: it has to be closed on the spot (open sockets == tracked sockets)
+        yield 'untracked-socket-is-closed', s_and(s_implies(s_not(accepted), obs['new_closed'] == [True]), s_implies(accepted, obs['new_closed'] == [False]))
         yield 'nothing-else-changes', s_and(obs['O2'] == O, obs['pre_kept'], obs['limits'] == (M_SHIP, C_SHIP))
 
 
